@@ -308,12 +308,130 @@ fn case_pattern(input: &Input, ctx: &mut Ctx) -> CaseResult {
     Ok(())
 }
 
+/// The var-int readers inside packet bodies (property length of every v5 packet type and of the will,
+/// Subscription Identifier values): a generated valid packet is serialised by the harness with those
+/// var-ints written in a chosen width of 1-4 bytes (padded with continuation bytes where that is wider than
+/// the minimal form). The value does not change, so every front-end must return the original packet, and
+/// "reports the bytes consumed" is observed as: the poll decoder's total and the async decoder's reader
+/// position equal the frame length exactly, also when another packet follows.
+/// Asserted for the packet types in which the reader's count is observable: UNSUBSCRIBE (whose decoder
+/// uses the reported count for its length accounting) and the types whose property section is followed by
+/// nothing or by self-delimiting fields (CONNECT incl. the will, CONNACK, PUBACK/PUBREC/PUBREL/PUBCOMP,
+/// DISCONNECT, AUTH). PUBLISH, SUBSCRIBE, SUBACK and UNSUBACK size what follows the properties from the
+/// canonical size of the decoded property set, so a padded prefix is a remaining-length mismatch there by
+/// construction; that is a framing decision C15 does not speak about (DESIGN.md §10) and only totality
+/// (an error or exactly the original packet, never a different packet) is demanded for them.
+/// nums = [type index, width of the main property length, width of the will property length,
+///         width of subscription identifiers, seed]
+fn case_inbody(input: &Input, ctx: &mut Ctx) -> CaseResult {
+    use crate::model::{normalize, serialize, PVal};
+    use crate::mutate::{main_props_mut, will_props_mut};
+    let n = input.nums();
+    let get = |i: usize| n.get(i).copied().unwrap_or(1);
+    let (typ, wm, ww, ws, seed) = (get(0) as usize % crate::gen::V5_TYPES, get(1) as u8, get(2) as u8, get(3) as u8, get(4));
+    let mut x = seed.wrapping_mul(0x9E37_79B9_7F4A_7C15).wrapping_add(typ as u64);
+    let tape: Vec<u16> = (0..600)
+        .map(|_| {
+            x = x.wrapping_mul(6_364_136_223_846_793_005).wrapping_add(1_442_695_040_888_963_407);
+            (x >> 40) as u16
+        })
+        .collect();
+    let mut t = crate::tape::Tape::new(&tape);
+    let cfg = if seed % 3 == 0 { crate::gen::GenCfg::MEDIUM } else { crate::gen::GenCfg::SMALL };
+    let p = crate::gen::gen_v5_of_type(&mut t, &cfg, typ).map_err(|e| Violation::new(e.0))?;
+    let mut w = normalize(&crate::project::project_v5(&p));
+    let mut padded = 0u32;
+    let widen = |ps: &mut crate::model::Props, width: u8, padded: &mut u32| {
+        let min = crate::model::varint_min_width(ps.body_len() as u32) as u8;
+        if width > min {
+            ps.width = width;
+            *padded += 1;
+        }
+        for it in ps.items.iter_mut() {
+            if let PVal::VarInt(v, wd) = &mut it.val {
+                if ws as usize > crate::model::varint_min_width(*v) {
+                    *wd = ws;
+                    *padded += 1;
+                }
+            }
+        }
+    };
+    if let Some(ps) = main_props_mut(&mut w) {
+        widen(ps, wm, &mut padded);
+    }
+    if let Some(ps) = will_props_mut(&mut w) {
+        widen(ps, ww, &mut padded);
+    }
+    let frame = match serialize(&w) {
+        Some(b) => b,
+        None => return Ok(()),
+    };
+    let canonical = match p.encode() {
+        Ok(b) => b.as_ref().to_vec(),
+        Err(e) => viol!("encode of a valid packet failed: {:?}", e),
+    };
+    if padded == 0 {
+        ctx.label("inbody:nothing-to-pad");
+    } else {
+        ctx.label("inbody:padded");
+        if !matches!(w.typ(), 3 | 8 | 9 | 11) {
+            ctx.label(&format!("inbody:{}", crate::model::type_name(w.typ())));
+        }
+        ensure!(frame.len() > 2 && frame != canonical, "harness: padded frame equals the canonical encoding");
+    }
+    let what = || format!("v5 {} with its in-body var-ints written in {}/{}/{} bytes (property length / will property length / subscription identifier): {}", crate::model::type_name(w.typ()), wm, ww, ws, crate::model::hex_short(&frame, 48));
+    // followed by another packet, so that reading too little or too much shows
+    let mut stream = frame.clone();
+    stream.extend_from_slice(&[0xC0, 0x00]);
+    let run = crate::fam::dec_poll::<V5>(&stream);
+    let canonical_accounting = matches!(w.typ(), 3 | 8 | 9 | 11); // PUBLISH, SUBSCRIBE, SUBACK, UNSUBACK
+    if canonical_accounting && padded > 0 {
+        match &run.result {
+            Ok(ok) if ok.pkt == p && ok.total == frame.len() && run.pos == frame.len() => {}
+            Err(_) => {}
+            other => viol!("poll decoder on {} returned {:?}: neither an error nor the packet those bytes spell", what(), other.as_ref().map(|o| (o.total, &o.pkt))),
+        }
+        ctx.label("inbody:canonical-accounting-type");
+        return Ok(());
+    }
+    match &run.result {
+        Ok(ok) if ok.pkt == p && ok.total == frame.len() && run.pos == frame.len() => {}
+        other => viol!("poll decoder on {} returned {:?}, transport position {} (frame is {} bytes; expected the packet {:?})", what(), other.as_ref().map(|o| (o.total, &o.pkt)), run.pos, frame.len(), p),
+    }
+    let (r, used) = crate::fam::dec_async::<V5>(&stream);
+    match &r {
+        Ok(q) if *q == p && used == frame.len() => {}
+        other => viol!("async decoder on {} returned {:?} after consuming {} bytes (frame is {} bytes)", what(), other, used, frame.len()),
+    }
+    match v5::Packet::decode(&stream) {
+        Ok(Some(q)) if q == p => {}
+        other => viol!("blocking decoder on {} returned {:?}", what(), other),
+    }
+    match v5::Packet::decode(&frame) {
+        Ok(Some(q)) if q == p => {}
+        other => viol!("blocking decoder on exactly {} returned {:?}", what(), other),
+    }
+    // one byte short is incomplete, not an error and not a packet
+    match v5::Packet::decode(&frame[..frame.len() - 1]) {
+        Ok(None) => {}
+        other => viol!("blocking decoder on all but the last byte of {} returned {:?}", what(), other),
+    }
+    if padded > 0 {
+        ctx.count_distinct(1);
+        if seed < 2 && wm == 4 {
+            ctx.sample(what);
+        }
+    }
+    Ok(())
+}
+
+pub const SUB_INBODY: Sub = Sub { name: "c15.inbody", f: case_inbody };
 pub const SUB_VALUES: Sub = Sub { name: "c15.values", f: case_block };
 pub const SUB_INVALID: Sub = Sub { name: "c15.invalid", f: case_invalid };
 pub const SUB_PATTERN: Sub = Sub { name: "c15.patterns", f: case_pattern };
 
 pub fn subs() -> Vec<Sub> {
-    vec![SUB_VALUES, SUB_INVALID, SUB_PATTERN]
+    vec![SUB_VALUES, SUB_INVALID, SUB_PATTERN, SUB_INBODY]
 }
 
 fn patterns() -> Vec<Input> {
@@ -370,6 +488,33 @@ pub fn run(env: &mut Env) -> RunResult {
     env.run_enum(SUB_PATTERN, n, true, move |i| pats[i as usize].clone())?;
     for l in ["pattern:1-byte", "pattern:2-byte", "pattern:3-byte", "pattern:4-byte", "pattern:over-long", "pattern:incomplete"] {
         env.require("c15.patterns", l);
+    }
+    // in-body var-int readers: 15 types x widths 1..=4 of (property length, will property length, subscription id) x seeds
+    let seeds = env.tier.sel(12u64, 200u64);
+    let combos: Vec<(u64, u64, u64, u64)> = {
+        let mut v = Vec::new();
+        for typ in 0..crate::gen::V5_TYPES as u64 {
+            for wm in 1..=4u64 {
+                // the will width only matters for CONNECT (0), the subscription-identifier width for PUBLISH (2) and SUBSCRIBE (7)
+                let wws: &[u64] = if typ == 0 { &[1, 2, 3, 4] } else { &[1] };
+                let wss: &[u64] = if typ == 2 || typ == 7 { &[1, 2, 3, 4] } else { &[1] };
+                for &ww in wws {
+                    for &ws in wss {
+                        v.push((typ, wm, ww, ws));
+                    }
+                }
+            }
+        }
+        v
+    };
+    let nc = combos.len() as u64;
+    env.run_enum(SUB_INBODY, nc * seeds, false, move |i| {
+        let (typ, wm, ww, ws) = combos[(i % nc) as usize];
+        Input::Nums(vec![typ, wm, ww, ws, i / nc])
+    })?;
+    env.require("c15.inbody", "inbody:padded");
+    for t in ["CONNECT", "CONNACK", "PUBACK", "PUBREC", "PUBREL", "PUBCOMP", "UNSUBSCRIBE", "DISCONNECT", "AUTH"] {
+        env.require("c15.inbody", &format!("inbody:{}", t));
     }
     env.require("c15.values", "poll-header-state-inspected");
     env.require("c15.values", "width-boundary-neighbourhood");
